@@ -101,6 +101,49 @@ def run(chk, replay=None):
                     chk.violation({"class": "simc-error", "what": "exit=%d || %s" % (p.returncode, g.text[:160])},
                                   {"program": g.text, "debug": dbg, "simc_stdout": out[:400], "simc_stderr": err[:400], "library_error": msg[:300], "exit": p.returncode,
                                    "broken": "simc must exit non-zero with the library's message exactly when the library returns an error"})
+    # ---- history independence inside one process / thread: the programs compiled first in a fresh process, and compiled after a long
+    #      history of OTHER inputs on the same thread (texts rejected at every stage — grammar, tree building, analysis, code generation —,
+    #      rejected texts nested some levels deep, legal texts nested very deep, large legal texts) give the same answers
+    hr = chk.sub_rng("history")
+    hist = []
+    for cf in sorted(os.listdir(os.path.join(VERIF, "corpus", "C03"))):
+        hist += [l.rstrip("\n") for l in open(os.path.join(VERIF, "corpus", "C03", cf)) if l.strip() and not l.startswith("#")]
+    late = ["let l: List<u8, 3> = list![];", "let l: List<u8, 0> = list![];", "let a: [u8; 18446744073709551616] = witness::A;", "let x: u8 = match witness::B { true => 1, true => 2, };",
+            "let x: u8 = match witness::E { Left(a: u8) => a, Some(b: u8) => b, };", "let x: u8 = fold::<f, 6>(list![], 0);", "let x: u8 = 256;", "let x: u8 = y;",
+            "let x: (u8, u8) = (1, 2, 3);", "let x: u8 = unwrap_left::<u8>(Right(1));", "let x: u300 = 1;", "let x: u8 = jet::no_such_jet(1);", "let x: u8 = 0x123;", "assert!(1);"]
+    wraps = [("Some(", ")"), ("(", ")"), ("{ ", " }"), ("(", ", 1)"), ("[", "]"), ("Left(", ")"), ("dbg!(", ")"), ("match true { true => ", ", false => 0, }")]
+    for k in range(60 if quick else 400):
+        st = hr.choice(late)
+        d = hr.choice([1, 2, 3, 4, 6, 9])
+        # the failing statement sits inside d nested expressions
+        inner = "{ %s 1 }" % st
+        for _ in range(d):
+            a, b = hr.choice(wraps)
+            inner = a + inner + b
+        hist.append("fn main() { let z: u8 = %s; }" % inner if hr.random() < 0.5 else "fn f(e: u8, a: u8) -> u8 { a } fn main() { let q: u8 = 1; let z: u8 = %s; }" % inner)
+    for d in ((20, 70, 130) if quick else (20, 50, 70, 100, 130, 200, 400)):
+        # (plain parentheses and value blocks are left out here: pest needs time exponential in their nesting depth, see DESIGN 12.7)
+        for a, b in (wraps[0], wraps[3], wraps[4], wraps[5], wraps[6]):
+            hist.append("fn main() { let z: u8 = %s1%s; }" % (a * d, b * d))      # mostly ill-typed, some legal: all nested deep
+        hist.append("fn main() { " + "{ " * d + "assert!(jet::eq_8(1, 1));" + " };" * d + " }")
+        hist.append("fn main() { let z: %s = %s; }" % ("Option<" * d + "u8" + ">" * d, "Some(" * d + "1" + ")" * d))
+        hist.append("fn main() { let z: (%s) = %s; }" % ("(" * d + "u8" + ",)" * d, "(" * d + "1" + ",)" * d))
+    hr.shuffle(hist)
+    for dbg in (0, 1):
+        plines = ["(commit %s () %d)" % (quote(g.text), dbg) for g in progs if not g.label.startswith("large/")]
+        hlines = ["(commit %s () %d)" % (quote(t), dbg) for t in hist]
+        fresh = impl("core", plines, shards=1)
+        after = impl("core", hlines + plines, shards=1)
+        chk.count("history.length", len(hlines))
+        chk.count("history.crash", sum(1 for x in after[:len(hlines)] if x.startswith("CRASH")))
+        for cls in ("ok", "rej", "cerr"):
+            chk.count("history.%s" % cls, sum(1 for x in after[:len(hlines)] if x.startswith("(" + cls)))
+        for ln, a, b in zip(plines, fresh, after[len(hlines):]):
+            chk.case(ln + "#history")
+            if a != b:
+                chk.violation({"class": "nondeterministic", "what": "fresh process: %s; after %d other inputs on the same thread: %s || %s" % (a[:70], len(hlines), b[:70], ln[:160])},
+                              {"cmd": "core", "line": ln, "history": hlines[:400], "fresh": a[:600], "after_history": b[:600],
+                               "broken": "the same source compiles differently after other (rejected / deeply nested) sources were compiled earlier in the same process: state survives between compilations"})
     chk.extra["processes_per_program"] = nproc
     # ---- the constructors of the public API agree: CompiledProgram::new = TemplateProgram::new + instantiate (commit bytes);
     #      SatisfiedProgram::new = compile + satisfy = satisfy_with_env(.., None) (program and witness bytes)
